@@ -193,7 +193,9 @@ fn dfs(g: &Graph, state: usize, table: &SymbolTable, hist: &mut Vec<Value>, maxl
         hist.push(e.op.clone());
         let res = guarded(|| {
             let r = apply(&mut t, &e.op);
-            let o = observe(&t, &g.names);
+            // observe on a copy: look-ups made for the observation must not touch the table under test
+            // (a table with interior mutability - a look-up cache - would be refreshed by the observer)
+            let o = observe(&t.clone(), &g.names);
             let syms = all_symbols(&t);
             (r, o, syms)
         });
@@ -259,9 +261,10 @@ pub fn walk(args: &[String]) {
     // depth-2 prefix checked sequentially (cheap)
     dfs(&g, g.init, &t0, &mut vec![], maxlen.min(2), &st);
     if maxlen > 2 && st.failures.lock().unwrap().is_empty() {
-        seeds.par_iter().for_each(|(s, t, h)| {
-            let mut hh = h.clone();
-            dfs(&g, *s, t, &mut hh, maxlen, &st);
+        // by value: the table only has to be Send (a change that adds interior mutability must not stop the build)
+        seeds.into_par_iter().for_each(|(s, t, h)| {
+            let mut hh = h;
+            dfs(&g, s, &t, &mut hh, maxlen, &st);
         });
     }
     let fails = st.failures.lock().unwrap().clone();
@@ -305,7 +308,7 @@ pub fn record(args: &[String]) {
             let r = guarded(|| apply(&mut t, &op));
             match r {
                 Ok(r) => {
-                    let o = observe(&t, &all_names);
+                    let o = observe(&t.clone(), &all_names);
                     out.put(&json!({"ev":"op","op":op,"r":r,"obs":o}));
                 }
                 Err(p) => {
